@@ -670,17 +670,19 @@ class Binary(Expression):
             dst = None
         with self.ebpf.get_free_register(dst) as dst:
             with self.left.calculate(dst, long, True) as (dst, l_long):
-                if long is None:
+                # a constant has no width of its own
+                if long is None and not isinstance(self.left, Constant):
                     long = l_long
             if self.right.small_constant:
+                long = bool(long)
                 self.ebpf.append(self.operator + Opcode.LONG * long,
                                  dst, 0, 0, int(self.right.value))
             else:
                 with self.right.calculate(None, long) as (src, r_long):
+                    if long is None:
+                        long = bool(r_long or l_long)
                     self.ebpf.append(
-                        self.operator + Opcode.REG
-                        + Opcode.LONG * ((r_long or l_long)
-                                         if long is None else long),
+                        self.operator + Opcode.REG + Opcode.LONG * long,
                         dst, src, 0, 0)
             if orig_dst is None or orig_dst == dst:
                 yield dst, long
